@@ -139,7 +139,7 @@ class VM(object):
             b = b[:hi]
         elif kind != 'intact' and rng.random() < 0.5:
             self.stop_damaged = True
-            b[hi:hi + 4] = bytes(rng.choice(b'7\x00\xffBUF') for _ in range(4))
+            b[hi:hi + 4] = bytes(rng.choice(b'7\x00\xff8 fr') for _ in range(4))
             if bytes(b[hi:hi + 4]) == b'7777':
                 b[hi] = 0
         self.b = bytes(b)
@@ -153,6 +153,11 @@ class VM(object):
     @property
     def declared(self):
         return self.base.frame['total']
+
+    @property
+    def slack(self):
+        """octets behind the message's own bytes that its declared total length spans"""
+        return max(0, self.declared - len(self.b))
 
 
 # ---------------------------------------------------------------------------------------------
@@ -311,6 +316,16 @@ class _Meta(object):
         return self.m
 
 
+def table_state():
+    """the process-global in-stream table definitions (what a table-definition message registers)"""
+    try:
+        from pybufrkit.tables import TableGroupCacheManager
+        c = TableGroupCacheManager._TABLE_GROUP_CACHE
+        return (len(c.extra_b_entries), len(c.extra_d_entries), getattr(c, 'extra_entries_generation', None))
+    except Exception:  # noqa
+        return None
+
+
 def quiet_scan(s, info_only, cont, filter_expr, limit):
     """-> ([(serialized_bytes, [(index, params)])], outcome)"""
     from pybufrkit.decoder import generate_bufr_message
@@ -373,8 +388,11 @@ def build_stream(rng, vms):
         kind, sep = S.separator(rng)
         if i == 0 and rng.random() < 0.5:
             kind, sep = 'empty', b''
-        if placed and placed[-1][1].cut and len(sep) < 4:
-            kind, sep = 'noise4', S.noise(rng, rng.randint(4, 12))
+        need = placed[-1][1].slack if placed else 0
+        if len(sep) < need:
+            # the declared total length of the message before reaches past its own bytes (stream cut at the end of its
+            # section 4, or a total length declared too large): it takes these octets of the separator with it
+            kind, sep = 'noise%d' % need, S.noise(rng, need + rng.randint(0, 8))
         seps.append(kind)
         s += sep
         placed.append((len(s), vm))
@@ -391,7 +409,9 @@ def eval_stream(ctx, s, placed, mode, filt):
     cont = 'continue' in mode
     expr, clauses, pred = filt if 'filter' in mode else (None, None, None)
     want = [(pos, vm) for pos, vm in placed if pred is None or pred(vm.meta())]
+    before = table_state()
     items, outcome = quiet_scan(s, True, cont, expr, len(placed) + 2)
+    after = table_state()
     ctx.traces += 1
     ctx.count('info-matrix:scan:' + mode)
     sig = {'kind': 'info-data', 'entry': 'scan', 'mode': mode}
@@ -420,6 +440,11 @@ def eval_stream(ctx, s, placed, mode, filt):
             if bad:
                 culprit = k
                 break
+    if not bad and after != before:
+        bad = ('changed the process-wide table definitions (%s -> %s: B entries, D entries, generation): the data section of a '
+               'table-definition message was decoded' % (before, after))
+        tds = [k for k, (pos, vm) in enumerate(want) if vm.meta()['data_category'] == 11]
+        culprit = tds[0] if tds else None
     if bad:
         w = want[culprit][1] if culprit is not None and culprit < len(want) else None
         ctx.violation('metadata-only scan (%s%s) of a stream of %d messages %s%s' % (
@@ -460,6 +485,7 @@ def plan_bases(ctx, rng):
               ('originating_subcentre', [rng.randrange(1, 256), 65535]),
               ('update_sequence_number', [rng.randrange(1, 256)]),
               ('n_subsets', [0, 1, 65535, rng.randrange(2, 65535)]),
+              ('length', ['+1', '+%d' % rng.randrange(2, 9), '-1', '-%d' % rng.randrange(2, 5)]),
               ('is_compressed', [0, 1]),
               ('is_section2_presents', []),      # never patched: it moves the sections (covered by generation)
               ('descriptors', list(UNKNOWN_DESCRIPTORS))]
@@ -467,7 +493,10 @@ def plan_bases(ctx, rng):
         for v in values:
             for rep in range(2 if quick else 6):
                 src = rng.choice(small)
-                nb = src.patched(name, v, label='first_descriptor' if name == 'descriptors' else None)
+                if name == 'length':        # a declared total length that is not the sum of the sections
+                    nb = src.patched(name, src.frame['total'] + int(v), label='length' + v)
+                else:
+                    nb = src.patched(name, v, label='first_descriptor' if name == 'descriptors' else None)
                 if nb is None:
                     ctx.count('info-matrix:patch-not-applicable:' + name)
                     continue
